@@ -320,16 +320,17 @@ theorem pquery_two_requests (table : String) (f1 t1 f2 t2 : Bytes) (ss1 ss2 : Li
 /-! ## The parameters of `| json label="path"` -/
 
 /-- **json_params_closed.** The object that renders the parameters of the LogQL json parser (`sqlJsonParser`): for
-    every closed column text, EVERY list of labels and EVERY list of paths — a path part may be any byte string: a
-    field name beginning with a digit, containing quotes, brackets, comment openers — the text is well formed for
-    its leaves: each label and each part is one literal. The model writes every part as a leaf; that the code does
-    (`(sql.NewStringVal(part)).String` is the only thing assigned in the loop of `path2Sql`) is the regenerated fact
-    `Gen.JsonParser.partsEscaped`, whose extractor fails closed on any other loop body, and the `jsonparser` stream
-    compares the model's text with the real object's. -/
-theorem json_params_closed (col : Bytes) (hc : rawE col = true) (id : Nat) (labels : List Bytes) (paths : List (List Bytes)) :
-    safeSegs .normal (LogQL.jsonParserSegs col id labels paths) = true ∧
+    EVERY list of (label, path) parameters — a name part of a path may be any byte string: a field name beginning
+    with a digit, containing quotes, brackets, comment openers; an index part is any integer — the text is well formed
+    for its leaves: each label and each name part is one literal, each index one decimal number. The model writes every
+    name part as a leaf; that the code does (`jsonPaths[i][j]` is built only as `sql.NewStringVal(name)` or as
+    `sql.NewIntVal(int64(idx)+1)` from a parsed `int`, and `part.String` is the only thing assigned in the loop of
+    `path2Sql`) is the regenerated fact `Gen.JsonParser`, whose extractor fails closed on any other construction or
+    loop body, and the `jsonparser` stream compares the model's text with the real object's. -/
+theorem json_params_closed (ps : List (Bytes × List Sql.JArg)) :
+    safeSegs .normal (LogQL.jsonParserSegs ps) = true ∧
     Gen.JsonParser.partsEscaped = true ∧ Gen.JsonParser.labelsEscaped = true :=
-  ⟨((LogQL.jsonParserSegs_closed col hc id labels paths) .normal rfl).1, rfl, rfl⟩
+  ⟨((LogQL.jsonParserSegs_closed ps) .normal rfl).1, rfl, rfl⟩
 
 /-- the grammar-field inventory has no duplicate entry (a key identifies one coverage obligation of the `grammar` stream) -/
 theorem grammar_fields_distinct : (Gen.grammarFields.map (fun (l, s, f, _, _) => (l, s, f))).Nodup := by decide +kernel
@@ -449,7 +450,7 @@ example : rawE (Prom.ascii "`qryn`.profiles_series_gin_dist") = true := by decid
 example : (Prof.plan "profiles_series_gin" [50] [51]
     [⟨[95, 95, 110, 97, 109, 101, 95, 95], .eq, [39]⟩, ⟨[39, 92], .re, [47, 42]⟩]).isSome = true := by decide +kernel
 -- `json_params_closed`: a field name that begins with a digit and closes a call
-example := json_params_closed (b "string") (by decide +kernel) 0 [[120]] [[[48, 39, 41, 32, 45, 45], [97]], []]
+example := json_params_closed [([120], [.key [48, 39, 41, 32, 45, 45], .key [97], .idx 1]), ([121], [])]
 -- the string leaves of the nodes added for the TraceQL and the LogQL metric planners (`anyIfNum`, `mapAt`,
 -- `mapFilterKeys`) with hostile keys
 example : safeSegs .normal (segsExpr (.callT "bitAnd" [.anyIfNum [39, 92], .mapAt (.raw "labels") [39, 45, 45],
